@@ -99,12 +99,19 @@ structure Cfg where
   /-- `revertTask` breaks when the block it was given for `BlockByNumber(head.num)` carries another
   number (`proposed-fixes/C06-reverttask-check-block-number.diff`) -/
   numCheck : Bool
+  /-- on `ErrParentDoesNotMatchHead` `storeTask` starts `revertTask(block.Number-1)` instead of
+  `revertTask(block.Number-2)`: the head is compared with the source before it is reverted
+  (`proposed-fixes/C06-storetask-confirm-head-before-revert.diff`) -/
+  confirmHead : Bool
 deriving DecidableEq, Repr, Inhabited
 
-def Cfg.asFound : Cfg := ⟨false, false⟩
+def Cfg.asFound : Cfg := ⟨false, false, false⟩
 
-/-- both proposed fixes applied -/
-def Cfg.fixed : Cfg := ⟨true, true⟩
+/-- all proposed fixes applied -/
+def Cfg.fixed : Cfg := ⟨true, true, true⟩
+
+/-- `lastPossiblyValidHeight` chosen by `storeTask` after `ErrParentDoesNotMatchHead` for block `b` -/
+def mismatchLpv (cfg : Cfg) (b : Blk) : Nat := sub64 b.num (if cfg.confirmHead then 1 else 2)
 
 /-- `isReverting(nextHeight)` given the local chain and the answer of `BlockHeaderLatest`
 (`none` = the request failed). Returns `some lastPossiblyValidHeight` iff `isReorg`. -/
@@ -215,7 +222,7 @@ def Impl.step (cfg : Cfg) (s : Impl) : Ev → Impl × List Obs
       else match succession s.node.chain b with
         | .stored => let (n, o) := onStored s.node b; ({ s with node := n }, o)
         | .badNumber => (s, [])              -- other store error: reset
-        | .parentMismatch => ({ s with task := some (sub64 b.num 2) }, [])
+        | .parentMismatch => ({ s with task := some (mismatchLpv cfg b) }, [])
   | .reorgDetected next latest =>
     match s.task with
     | some _ => (s, [])
@@ -279,7 +286,7 @@ def round (cfg : Cfg) (src : Chain) (n : Node) : Node × List Obs :=
     else match succession n.chain b with
       | .stored => onStored n b
       | .badNumber => (n, [])
-      | .parentMismatch => revertTask cfg src (sub64 b.num 2) n.chain n.reorg
+      | .parentMismatch => revertTask cfg src (mismatchLpv cfg b) n.chain n.reorg
   | none =>
     match isReverting cfg n.chain h (srcLatest src) with
     | some lpv => revertTask cfg src lpv n.chain n.reorg
@@ -296,11 +303,14 @@ def runRounds (cfg : Cfg) (src : Chain) : Nat → Node → Node × List Obs
 
 /-- The source has shown that it does not hold `hd` (as head of local chain `c`) any more:
 * it answered a request for that height with a block of that height and another hash, or
-* it served a verified block `hd.num + 1` whose parent is not `hd`, or
-* it reported a latest header at or below `hd` that differs from the local block there. -/
-def justified (ev : Evidence) (c : Chain) (hd : Blk) : Bool :=
+* (only when `strict = false`) it served a verified block `hd.num + 1` whose parent is not `hd`, or
+* it reported a latest header at or below `hd` that differs from the local block there.
+The second kind of answer may have been fetched BEFORE `hd` was stored (parallel fetchers), the
+other two are always requested after; `strict = true` is the relation the code satisfies once
+`storeTask` confirms the head before reverting it. -/
+def justified (strict : Bool) (ev : Evidence) (c : Chain) (hd : Blk) : Bool :=
   ev.blocks.any (fun rb => rb.1 == hd.num && rb.2.num == hd.num && rb.2.hash != hd.hash)
-  || ev.blocks.any (fun rb => rb.2.ok && rb.2.num == hd.num + 1 && rb.2.parent != hd.hash)
+  || (!strict && ev.blocks.any (fun rb => rb.2.ok && rb.2.num == hd.num + 1 && rb.2.parent != hd.hash))
   || ev.latests.any (fun l => decide (l.num ≤ hd.num) &&
         (match byNumber? c l.num with | some lb => lb.hash != l.hash | none => false))
 
@@ -351,7 +361,7 @@ def Reject.name : Reject → String
   | .revertFailed => "revert-head-failed"
   | .notifUnexpected => "notification-unexpected"
 
-def Spec.step (s : Spec) : SEv → Except Reject Spec
+def Spec.step (strict : Bool) (s : Spec) : SEv → Except Reject Spec
   | .served req b => .ok { s with ev := { s.ev with blocks := (req, b) :: s.ev.blocks } }
   | .latest h => .ok { s with ev := { s.ev with latests := h :: s.ev.latests } }
   | .obs (.stored num hash) =>
@@ -372,7 +382,7 @@ def Spec.step (s : Spec) : SEv → Except Reject Spec
     | [] => .error .revertNotHead
     | hd :: tl =>
       if hd.num != num || hd.hash != hash then .error .revertNotHead
-      else if !justified s.ev s.chain hd then .error .revertNotJustified
+      else if !justified strict s.ev s.chain hd then .error .revertNotJustified
       else .ok { s with chain := tl, pending := hd :: s.pending }
   | .obs (.revertFailed _ _) => .error .revertFailed
   | .obs o =>
@@ -380,10 +390,10 @@ def Spec.step (s : Spec) : SEv → Except Reject Spec
     | [] => .error .notifUnexpected
     | e :: rest => if e == o then .ok { s with owed := rest } else .error .notifUnexpected
 
-def Spec.run (s : Spec) : List SEv → Except Reject Spec
+def Spec.run (strict : Bool) (s : Spec) : List SEv → Except Reject Spec
   | [] => .ok s
-  | e :: es => match s.step e with
+  | e :: es => match s.step strict e with
     | .error r => .error r
-    | .ok s' => Spec.run s' es
+    | .ok s' => Spec.run strict s' es
 
 end Juno.C06
